@@ -58,23 +58,12 @@ class UnitResult:
     def obligation(self, st, phi):
         """phi must hold on the whole path: returns ('unsat', None) | ('sat', model) | ('unknown', None)"""
         self.res['obligations'] += 1
-        if isinstance(phi, bool):
-            if phi:
-                self.res['discharged'] += 1
-                return 'unsat', None
-            m = st.witness_model()
-            if m is None:
-                # path itself infeasible/unknown under the full condition
-                self.res['discharged'] += 1
-                return 'unsat', None
-            return 'sat', m
-        r = st.check(z3.Not(phi), full=True)
-        if r == z3.unsat:
+        r, m = st.check_valid(phi)
+        if r == 'unsat':
             self.res['discharged'] += 1
-            return 'unsat', None
-        if r == z3.sat:
-            return 'sat', st.solver.model()
-        return 'unknown', None
+        elif r == 'unknown':
+            self.res['unknown'] += 1
+        return r, m
 
     def trivial_obligation(self):
         self.res['obligations'] += 1
